@@ -124,7 +124,16 @@ type linearTicker struct {
 
 func (t linearTicker) CountTicks(level int) int {
 	firstN, lastN, _ := t.s.spacingAtLevel(level, t.roundOut)
-	return int(lastN - firstN + 1)
+	n := lastN - firstN + 1
+	if !(n < math.MaxInt64) {
+		// Too many ticks to count (or the spacing
+		// underflowed). Converting such a float to int is
+		// implementation-specific: on amd64 it yields the
+		// most negative int, which FindLevel took for a
+		// level that satisfies any Max.
+		return math.MaxInt64
+	}
+	return int(n)
 }
 
 func (t linearTicker) TicksAtLevel(level int) interface{} {
